@@ -224,7 +224,11 @@ func (c *Ctx) runTop(fn *ssa.Function, spec *FuncSpec, useGaps bool) (err error)
 	for i, pc := range pconds {
 		c.oblige(exit, "panics_if", fmt.Sprintf("%s/panics_if#%d", c.fn, i+1), not(pc), "normal return implies the panic condition did not hold")
 	}
-	c.frameCheck(fr, spec, exit)
+	if _, nf := spec.Flags["noframe"]; !nf {
+		c.frameCheck(fr, spec, exit)
+	} else {
+		c.note("the modifies clause of " + c.fn + " is not checked (thin safety contract, flag noframe); it is never used at call sites of proved functions")
+	}
 	inputs := c.replayInputs(fr, spec, result, exit)
 	for _, o := range c.obls {
 		if o.Kind == "ensures" || o.Kind == "panics_if" || strings.HasPrefix(o.Kind, "safe/") {
